@@ -55,6 +55,9 @@ type resetSpec struct {
 	// it ends up parked behind a closed window) and Close is called this long after it began;
 	// writes that fail are not owed, every write that returned success is
 	CloseWhileWriting time.Duration
+	// DoubleClose: Close is called a second time a little later, while the stream is still
+	// closing (an explicit Close plus a deferred one): it must be a no-op
+	DoubleClose bool
 }
 
 type resetObs struct {
@@ -250,6 +253,12 @@ func resetCycle(m *Sim, spec *resetSpec, cycle int) bool {
 			m.Failf("close", "cycle %d: Close on A stream %d: %v", cycle, sid, err)
 		}
 		m.Logf(fmt.Sprintf("c%d closeA sid=%d", cycle, sid), "ok")
+	}
+	if spec.DoubleClose {
+		m.Sleep(3 * time.Millisecond)
+		for _, sid := range spec.SIDs {
+			_ = streams[sid].a.Close()
+		}
 	}
 	m.Join(writers...)
 	// B: once its reader saw the end of the stream it writes back and closes its direction
@@ -450,6 +459,11 @@ func propC14(j *Job) {
 								return
 							}
 						}
+						if !two && !late && si == 1 {
+							sp := *spec
+							sp.DoubleClose = true
+							j.Explore(fmt.Sprintf("R/%s/m%d/U%v/double-close", mode.Name, len(sizes), unordered), resetScenario(&sp), Budget{K: k}, nil)
+						}
 						if !two && !late && si == 1 && !unordered {
 							// re-open in the instant of end-of-stream, under every schedule with one deviation
 							sp := *spec
@@ -523,6 +537,7 @@ func resetOrderMonitor(m *Sim, x *Exec) {
 	open := [2]map[uint32]*req{{}, {}}
 	seen := [2]map[uint32]bool{{}, {}}
 	answered := [2]map[uint32]bool{{}, {}}
+	requested := [2]map[uint16]uint32{{}, {}}
 	for _, ev := range x.Events {
 		if ev.Pkt == nil || ev.Pkt.dec == nil {
 			continue
@@ -537,7 +552,16 @@ func resetOrderMonitor(m *Sim, x *Exec) {
 						if open[ev.From][rsn] == nil && !answered[ev.From][rsn] {
 							r := &req{sids: map[uint16]bool{}, last: be32(p.Val[8:])}
 							for o := 12; o+1 < len(p.Val); o += 2 {
-								r.sids[be16(p.Val[o:])] = true
+								sid := be16(p.Val[o:])
+								r.sids[sid] = true
+								// one request ends one incarnation: a second one (another request number) while the
+								// first is unanswered would reset whatever holds the identifier when it arrives -
+								// possibly the next incarnation
+								if prev, ok := requested[ev.From][sid]; ok && prev != rsn && open[ev.From][prev] != nil {
+									m.Failf("reset.request-repeated", "endpoint %d sends a second outgoing reset request (%d) for stream %d while its first one (%d) is still unanswered", ev.From, rsn, sid, prev)
+									return
+								}
+								requested[ev.From][sid] = rsn
 							}
 							open[ev.From][rsn] = r
 						}
@@ -560,6 +584,7 @@ func resetOrderMonitor(m *Sim, x *Exec) {
 					continue
 				}
 				seen[ev.From][c.TSN] = true
+				delete(requested[ev.From], c.SID) // data of the next incarnation
 				for rsn, r := range open[ev.From] {
 					if r.sids[c.SID] && sna32GT(c.TSN, r.last) {
 						m.Failf("reset.data-after-request", "endpoint %d: new data of stream %d (TSN %d) is sent while its outgoing reset request %d, which names %d as the last TSN assigned, is still unanswered: the message was queued behind the end-of-stream marker", ev.From, c.SID, c.TSN, rsn, r.last)
